@@ -70,7 +70,7 @@ class C04(CheckBase):
         case['fpos'] = rng.below(100000)
         case['fmode'] = rng.weighted([(3, 'any'), (2, 'sector-boundary'), (2, 'mid-sector'), (1, 'table'), (1, 'start')])
         case['policy'] = rng.choice(['physical', 'first'])
-        case['spot'] = rng.below(8) == 0
+        case['spot'] = rng.below(8) < 3
         case['spot_pick'] = rng.below(100000)
         return case
 
@@ -263,15 +263,21 @@ class C04(CheckBase):
             out.fault(fk, fired > 0)
         out.sig(case['kind'], ext, geo, fk or '-', case['fmode'] if fk else '-', verdict)
         if case['spot'] and not fk and ext != 'mmb':
-            self.spot(ctx, out, case, image, data, lay, exp, what, desc)
+            self.spot(ctx, out, case, image, data, lay, exp, what, desc, drives)
 
-    def spot(self, ctx, out, case, image, data, lay, exp, what, desc):
+    def spot(self, ctx, out, case, image, data, lay, exp, what, desc, drives):
         sb = ctx.sb
         name = 'img.' + image['ext']
         sb.reset({name: data})
         dn, si = sorted(exp.items())[case['spot_pick'] % len(exp)]
         ent = [x for x in lay if x[0] == si][0]
         _, tracks, spt, off = ent
+        g = drives.get(dn, {}).get('geometry')
+        if not g or (g[0], g[2]) != (tracks, spt):
+            # same rule as the sector-contents pass: an image whose geometry the probing rules resolve differently
+            # (identification is C13's subject) has no agreed (track, sector) numbering to compare
+            out.skip('ambiguous-geometry')
+            return
         t = case['spot_pick'] % tracks
         s = (case['spot_pick'] // 3) % spt
         argv = ['dfs', '--file', name] + (['--drive-first'] if case['policy'] == 'first' else []) + ['dump-sector', str(dn), str(t), str(s)]
@@ -295,6 +301,19 @@ class C04(CheckBase):
         o = off(t * spt + s)
         if bytes(got) != data[o:o + 256]:
             out.violate('C04.a', '%s: dfs dump-sector %d %d %d does not show the bytes at offset %d' % (what, dn, t, s, o), dict(desc, what='spot'), case)
+        # a (track, sector) that does not exist on the surface has no documented offset: dump-sector must refuse
+        # it, not show some other sector
+        pick = case['spot_pick']
+        bt, bs = [(t, spt), (tracks, 0), (tracks - 1, spt), (t, -1), (-1, s), (t, spt + 1 + pick % 7), (tracks, spt - 1)][(pick // 7) % 7]
+        if bt == 0 and bs < 0:
+            bt = 1
+        argv2 = argv[:-3] + [str(dn), str(bt), str(bs)]
+        r = ctx.sk.run(sb, ctx.exe('rel', 'dfs'), argv2)
+        out.add_run(r)
+        out.probe('e1-dump-sector-nonexistent-address')
+        if r.code == 0 and b'000000 ' in r['stdout']:
+            out.violate('C04.c', '%s: dfs dump-sector %d %d %d (surface has %d tracks of %d sectors) exits 0 and shows a sector' % (what, dn, bt, bs, tracks, spt),
+                        dict(desc, what='nonexistent-address:' + ('neg' if min(bt, bs) < 0 else 'sector' if bt < tracks else 'track')), case)
 
     def group_key(self, v):
         d = v['desc']
